@@ -18,10 +18,10 @@
 EXTENDS Meta, Cli, TLC, Json, IOUtils, SequencesExt, FiniteSetsExt
 Rec == ndJsonDeserialize(IOEnv.TRACE)
 
-VARIABLES l, af, ids, comps, famc, gr, dead, scomps, sfamc
-vars == <<l, af, ids, comps, famc, gr, dead, scomps, sfamc>>
+VARIABLES l, af, ids, comps, famc, gr, dead, scomps, sfamc, bc
+vars == <<l, af, ids, comps, famc, gr, dead, scomps, sfamc, bc>>
 
-Init == l = 1 /\ af = EmptyAF /\ ids = {} /\ comps = {} /\ famc = <<>> /\ gr = {} /\ dead = {} /\ scomps = {} /\ sfamc = <<>>
+Init == l = 1 /\ af = EmptyAF /\ ids = {} /\ comps = {} /\ famc = <<>> /\ gr = {} /\ dead = {} /\ scomps = {} /\ sfamc = <<>> /\ bc = [key |-> <<>>]
 
 Pairs(seq) == {<<p[1], p[2]>> : p \in ToSet(seq)}
 
@@ -86,16 +86,20 @@ JudgeFault(e) ==
 
 (* C18: bound on the number of SAT calls per component, no candidate examined twice *)
 CcAF(e) == [args |-> ToSet(e.labels), att |-> Pairs(e.att)]
-Bound(e) ==
-  LET caf == CcAF(e)
-      n == Cardinality(caf.args)
-  IN CASE e.sem \in {"CO", "ST"} -> 2
-       [] e.sem = "PR"  -> Cardinality(BaseFam(caf, e.base)) + Cardinality(PR(caf)) + 1
-       [] e.sem = "ID"  -> 2 * Cardinality(BaseFam(caf, e.base)) + Cardinality(PR(caf)) + 2
-       [] e.sem \in {"SST", "STG"} -> (n + 2) * Cardinality(BaseFam(caf, e.base)) + 3
+(* the sizes of the base families of the component the last `cc` event was about: consecutive events are about the same few components, *)
+(* so the enumerations are carried in the state (bc) instead of being redone for every event                                            *)
+CcKey(e) == <<ToSet(e.labels), Pairs(e.att)>>
+CcCounts(e) == LET caf == CcAF(e) IN
+  [key |-> CcKey(e), CF |-> Cardinality(CF(caf)), ADM |-> Cardinality(ADM(caf)), CO |-> Cardinality(FamFast(caf, "CO")), PR |-> Cardinality(FamFast(caf, "PR"))]
+Bound(e, c) ==
+  LET n == Cardinality(ToSet(e.labels)) IN
+  CASE e.sem \in {"CO", "ST"} -> 2
+    [] e.sem = "PR"  -> c[e.base] + c.PR + 1
+    [] e.sem = "ID"  -> 2 * c[e.base] + c.PR + 2
+    [] e.sem \in {"SST", "STG"} -> (n + 2) * c[e.base] + 3
 NoRepeat(seq) == Len(seq) = Cardinality(ToSet(seq))
-JudgeCc(e) ==
-  /\ (e.decoded \/ e.sem \in {"CO", "ST"}) => Report("C18:bound", e.calls <= Bound(e))
+JudgeCc(e, c) ==
+  /\ (e.decoded \/ e.sem \in {"CO", "ST"}) => Report("C18:bound", e.calls <= Bound(e, c))
   /\ (e.decoded /\ e.sem = "PR") => Report("C18:no_repeat", NoRepeat(e.returned))
 
 JudgeFrame(e) == Report("C06:framework_unchanged", e.same)
@@ -185,11 +189,16 @@ Next ==
                    ELSE [c \in comps' |-> [s \in ToSet(e.sems) \ {"STG"} |-> FamFast(RestrictAF(af', c), s)]]
         /\ scomps' = IF "STG" \in ToSet(e.sems) THEN Components(af') ELSE {}
         /\ sfamc' = [c \in scomps' |-> FamFast(RestrictAF(af', c), "STG")]
+        /\ UNCHANGED bc
+     ELSE IF e.ev = "cc" THEN
+        /\ UNCHANGED <<af, ids, comps, famc, gr, dead, scomps, sfamc>>
+        /\ bc' = IF bc.key = CcKey(e) THEN bc ELSE CcCounts(e)
+        /\ JudgeCc(e, bc')
      ELSE
+        /\ UNCHANGED bc
         /\ UNCHANGED <<af, ids, comps, famc, gr, dead, scomps, sfamc>>
         /\ CASE e.ev = "q" -> IF e.kind = "SE" THEN JudgeSE(e) ELSE JudgeAcc(e)
              [] e.ev = "fault" -> JudgeFault(e)
-             [] e.ev = "cc" -> JudgeCc(e)
              [] e.ev = "frame" -> JudgeFrame(e)
              [] e.ev = "agree" -> JudgeAgree(e)
              [] e.ev = "cli" -> IF "big" \in DOMAIN e THEN JudgeCliBig(e) ELSE JudgeCli(e)
